@@ -161,7 +161,7 @@ Definition credit_ev (w : world) (o : op) (r : opres) : list Z :=
   | OMelt id _, RLq q' =>
       if lq_state q' =? 2 then
         match find_lq id (d_lq (w_db w)) with
-        | Some q => match find (fun m => mq_hash m =? lq_hash q) (d_mq (w_db w)) with Some m => [mq_id m] | None => [] end
+        | Some q => match internal_mq q (w_db w) with Some m => [mq_id m] | None => [] end
         | None => []
         end
       else []
@@ -353,10 +353,10 @@ Proof.
         destruct Hr as [[Hd _]|[_ [q [_ [_ [_ [Hd _]]]]]]]; [rewrite Hd; reflexivity|exact Hd]. }
     destruct Hr as [q [Hf [_ Hr]]].
     change (d_lq (w_db w)) with (d_lq (w_db w0)). rewrite Hf.
-    change (d_mq (w_db w)) with (d_mq (w_db w0)).
-    destruct (find (fun m => mq_hash m =? lq_hash q) (d_mq (w_db w0))) as [mq0|] eqn:Emq.
+    change (internal_mq q (w_db w)) with (internal_mq q (w_db w0)).
+    destruct (internal_mq q (w_db w0)) as [mq0|] eqn:Emq.
     + destruct Hr as [pre [-> [_ [Hd _]]]]. rewrite with_state_state. cbn [Z.eqb Pos.eqb].
-      apply find_some in Emq as [Hin0 _].
+      apply internal_mq_some in Emq as [Emq _]. apply find_some in Emq as [Hin0 _].
       assert (Hids : In (mq_id mq0) (map mq_id (d_mq (w_db w)))) by (apply in_map; exact Hin0).
       change iss with ([] ++ iss).
       eapply qinv_upd; [exact Hd|exact Hmono|intros x []|intros x [<-|[]]; reflexivity|exact Hids| |exact Hq].
